@@ -147,6 +147,7 @@ def detect(ids):
     with multiprocessing.Pool(12) as pool:
         out = pool.map(detect_one, ids)
     caught = 0
+    expect = {}
     for sid, res, msg in out:
         own = sid.split('-')[0]
         if res is None:
@@ -154,6 +155,8 @@ def detect(ids):
             continue
         hit = own in res and not any('ANALYSIS' in x for x in res[own])
         caught += bool(hit)
+        if hit:
+            expect[sid] = sorted(res[own])
         print('%-8s %-6s own=%s others=%s %s' % (
             sid, 'CAUGHT' if hit else 'missed', res.get(own, '-'),
             {k: v for k, v in res.items() if k != own} or '-', msg))
@@ -171,6 +174,7 @@ def summary():
              '| seed | files | change (first line of notes.md) | own check | other checks |',
              '|------|-------|----------------------------------|-----------|--------------|']
     caught = 0
+    expect = {}
     for sid, res, msg in out:
         own = sid.split('-')[0]
         d = os.path.join(SEEDED, sid)
@@ -187,11 +191,15 @@ def summary():
         res = res or {}
         hit = own in res and not any('ANALYSIS' in x for x in res[own])
         caught += bool(hit)
+        if hit:
+            expect[sid] = sorted(res[own])
         others = '; '.join('%s: %s' % (k, ','.join(v)) for k, v in sorted(res.items()) if k != own)
         lines.append('| %s | %s | %s | %s | %s |' % (sid, ', '.join(files), line,
                                                   ', '.join(res.get(own, [])) if hit else '—', others or ''))
     lines += ['', '%d of %d seeded defects are reported by the check of their own property.' % (caught, len(out)), '']
     open(os.path.join(SEEDED, 'SUMMARY.md'), 'w').write('\n'.join(lines))
+    import json
+    json.dump(expect, open(os.path.join(SEEDED, 'EXPECT.json'), 'w'), indent=0, sort_keys=True)
     print('%d of %d' % (caught, len(out)))
 
 
